@@ -84,3 +84,17 @@ Proof.
   - exact (store_text_printed ltext L f' st Hv Hc Hp).
 Qed.
 Print Assumptions c14_edited_file_text.
+
+(* --- SECTION_NAME:KEY=VALUE on the command line (model/ItemLabel.v: _split_item_label and _create_override_tuple): the section is
+       what stands before the first colon (before the second for Table-Form:NAME), the key what follows up to the first "=", the
+       value everything after it -- colons and equals signs inside the value (">=2.0", "${Variables:rho}", "a ? b : c") included.
+       Together with c20_key_spellings the key then addresses its item whatever blanks it is typed with. *)
+From V Require Import model.ItemLabel proof.C14Label.
+Theorem c14_item_plain : forall S K V, without 58%Z S -> zlist_eqb (strip S) table_form = false -> without 61%Z K ->
+  override_tuple (S ++ 58%Z :: K ++ 61%Z :: V) true = Some (S, K, Some V) /\ override_tuple (S ++ 58%Z :: K) false = Some (S, K, None).
+Proof. exact item_plain. Qed.
+Theorem c14_item_table : forall S0 N K V, without 58%Z S0 -> zlist_eqb (strip S0) table_form = true -> without 58%Z N -> without 61%Z N -> without 58%Z K -> without 61%Z K ->
+  override_tuple (S0 ++ 58%Z :: N ++ 58%Z :: K ++ 61%Z :: V) true = Some (S0 ++ 58%Z :: N, K, Some V)
+  /\ override_tuple (S0 ++ 58%Z :: N ++ 58%Z :: K) false = Some (S0 ++ 58%Z :: N, K, None).
+Proof. exact item_table. Qed.
+Print Assumptions c14_item_table.
